@@ -224,10 +224,17 @@ impl CommandReader {
             Some(stdout) => stdout,
         };
         drop(stdout);
-        if self.child.wait()?.success() {
+        let status = self.child.wait()?;
+        if status.success() {
             Ok(())
         } else {
             let err = self.stderr.read_to_end();
+            // On Unix we can do better than the heuristic below: if we closed
+            // the pipe early and the child was then terminated by the pipe
+            // signal, it did not fail, whatever it wrote to stderr before.
+            if !self.eof && killed_by_pipe_signal(&status) {
+                return Ok(());
+            }
             // In the specific case where we haven't consumed the full data
             // from the child process, then closing stdout above results in
             // a pipe signal being thrown in most cases. But I don't think
@@ -241,6 +248,21 @@ impl CommandReader {
             Err(io::Error::from(err))
         }
     }
+}
+
+/// Returns true if the process was terminated by SIGPIPE.
+#[cfg(unix)]
+fn killed_by_pipe_signal(status: &process::ExitStatus) -> bool {
+    use std::os::unix::process::ExitStatusExt;
+
+    // SIGPIPE is 13 on every Unix that Rust supports.
+    status.signal() == Some(13)
+}
+
+/// Returns true if the process was terminated by SIGPIPE.
+#[cfg(not(unix))]
+fn killed_by_pipe_signal(_: &process::ExitStatus) -> bool {
+    false
 }
 
 impl Drop for CommandReader {
